@@ -220,6 +220,8 @@ def run(tier, seed):
     chk.encode(IterativeMachineGenerator.ParseString, IterativeMachineGenerator.main, IterativeMachineGenerator.GenerateEquations,
                IterativeMachineGenerator.GenerateFunction, IterativeMachineGenerator.GenerateVarDeclaration, IterativeMachineGenerator.GeneratePackVars,
                IterativeMachineGenerator.GenerateUnpackVars, IterativeMachineGenerator.GenerateFile, sfc_models.base_solver.BaseSolver.CreateCsvString)
+    from vf import selfcheck
+    selfcheck.run(chk)      # differential validation of the E2 value classes (trusted base) against plain floats
     names = [(n, h) for n in sorted(BLOCKS) for h in ('once', 'inspect-then-main', 'regenerate')]
     chk.bounds = {'blocks x generator histories': names, 'periods': 2, 'numeric domain': 'previous-period values and both periods of every exogenous path symbolic reals in [-100,100]',
                   'post': 'every equation of the block holds at the module`s values within gain*tolerance (undamped Jacobi with summed absolute change <= tolerance), '
